@@ -55,6 +55,8 @@ type c15bWorld struct {
 	crlf      bool
 	ops       []string
 	bad       bool
+	armedOp   string
+	armedFile *tailFile
 	closed    bool
 	closedAt  time.Duration
 }
@@ -258,6 +260,16 @@ func c15BatchWorld(rc *RunCtx) {
 	if withMissing {
 		w.files[nFiles-1].missing = true
 	}
+	s.FS.Hook = func(op, path string) {
+		tf := w.armedFile
+		if w.armedOp == "" || tf == nil || op != w.armedOp || path != tf.path || !tf.exists || tf.streamOver || w.bad {
+			return
+		}
+		w.armedOp = ""
+		w.opf("(right after the reader's %s call on %s)", op, path)
+		w.appendTo(tf, w.chunk(1+rc.Tape.W(20)))
+		rc.Fired["append-between-syscalls"]++
+	}
 	var batcher *batchers.Batcher
 	logger.DeferLogs()
 	defer func() {
@@ -374,6 +386,11 @@ func c15BatchWorld(rc *RunCtx) {
 				}
 				w.opf("%s: remove (after the reader read all %d bytes)", tf.path, tf.size)
 				fsnotify.SimNotify(tf.path, fsnotify.Remove)
+			case k >= 8 && tf.exists && !tf.streamOver:
+				w.armedOp, w.armedFile = []string{"stat", "read", "read", "open"}[t.W(4)], tf
+				w.opf("%s: arm: append right after the reader's next %s", tf.path, w.armedOp)
+				w.waitUntil(3*time.Second, func() bool { return w.armedOp == "" })
+				w.armedOp = ""
 			case k >= 8 && !tf.exists && (w.reopen || tf.streamOver):
 				prev := tf.size
 				if w.poll && !tf.streamOver && prev < 2 {
